@@ -75,10 +75,9 @@ Proof.
   lra.
 Qed.
 
-Definition fl_mul (a b : fl) : fl.
+Lemma fl_mul_ok (a b : fl) :
+  cond a /\ cond b -> Rabs (rnd (fv a * fv b) - ex a * ex b) <= ((1 + er a) * (1 + er b) * (1 + u64) - 1) * Rabs (ex a * ex b) /\ 0 <= (1 + er a) * (1 + er b) * (1 + u64) - 1.
 Proof.
-  refine (mkfl (rnd (fv a * fv b)) (ex a * ex b) ((1 + er a) * (1 + er b) * (1 + u64) - 1)
-               (cond a /\ cond b) _).
   intros [Ca Cb]. destruct (fok a Ca) as [Ha Ea]. destruct (fok b Cb) as [Hb Eb].
   destruct (rel_to_factor _ _ _ Ha Ea) as (ta & Hta & Eqa).
   destruct (rel_to_factor _ _ _ Hb Eb) as (tb & Htb & Eqb).
@@ -90,7 +89,9 @@ Proof.
     + apply three_factors; assumption.
   - assert (0 <= er a * er b) by (apply Rmult_le_pos; assumption).
     assert (0 <= (er a + er b + er a * er b) * u64) by (apply Rmult_le_pos; lra). lra.
-Defined.
+Qed.
+Definition fl_mul (a b : fl) : fl :=
+  mkfl (rnd (fv a * fv b)) (ex a * ex b) ((1 + er a) * (1 + er b) * (1 + u64) - 1) (cond a /\ cond b) (fl_mul_ok a b).
 
 (* 1/(1+t) = 1 + s with |s| <= e/(1-e) for |t| <= e < 1 *)
 Lemma inv_factor t e : Rabs t <= e -> e < 1 -> Rabs (/ (1 + t) - 1) <= e / (1 - e).
@@ -107,11 +108,9 @@ Proof.
   - apply Rinv_le_contravar; lra.
 Qed.
 
-Definition fl_div (a b : fl) : fl.
+Lemma fl_div_ok (a b : fl) :
+  cond a /\ cond b /\ er b < 1 /\ ex b <> 0 -> Rabs (rnd (fv a / fv b) - ex a / ex b) <= ((1 + er a) * (1 + er b / (1 - er b)) * (1 + u64) - 1) * Rabs (ex a / ex b) /\ 0 <= (1 + er a) * (1 + er b / (1 - er b)) * (1 + u64) - 1.
 Proof.
-  refine (mkfl (rnd (fv a / fv b)) (ex a / ex b)
-               ((1 + er a) * (1 + er b / (1 - er b)) * (1 + u64) - 1)
-               (cond a /\ cond b /\ er b < 1 /\ ex b <> 0) _).
   intros (Ca & Cb & Hlt & Hnz). destruct (fok a Ca) as [Ha Ea]. destruct (fok b Cb) as [Hb Eb].
   destruct (rel_to_factor _ _ _ Ha Ea) as (ta & Hta & Eqa).
   destruct (rel_to_factor _ _ _ Hb Eb) as (tb & Htb & Eqb).
@@ -126,7 +125,9 @@ Proof.
     + apply three_factors; try assumption. apply inv_factor; assumption.
   - assert (0 <= er a * (er b / (1 - er b))) by (apply Rmult_le_pos; assumption).
     assert (0 <= (er a + er b / (1 - er b) + er a * (er b / (1 - er b))) * u64) by (apply Rmult_le_pos; lra). lra.
-Defined.
+Qed.
+Definition fl_div (a b : fl) : fl :=
+  mkfl (rnd (fv a / fv b)) (ex a / ex b) ((1 + er a) * (1 + er b / (1 - er b)) * (1 + u64) - 1) (cond a /\ cond b /\ er b < 1 /\ ex b <> 0) (fl_div_ok a b).
 
 (* sqrt(1+t) = 1 + s with |s| <= |t| for t >= -1 *)
 Lemma sqrt_factor t : -1 <= t -> Rabs (sqrt (1 + t) - 1) <= Rabs t.
@@ -140,10 +141,9 @@ Proof.
     rewrite (Rabs_left1 (sqrt (1 + t) - 1)) by lra. rewrite (Rabs_left t) by lra. nra.
 Qed.
 
-Definition fl_sqrt (a : fl) : fl.
+Lemma fl_sqrt_ok (a : fl) :
+  cond a /\ er a <= 1 /\ 0 <= ex a -> Rabs (rnd (sqrt (fv a)) - sqrt (ex a)) <= ((1 + er a) * (1 + 0) * (1 + u64) - 1) * Rabs (sqrt (ex a)) /\ 0 <= (1 + er a) * (1 + 0) * (1 + u64) - 1.
 Proof.
-  refine (mkfl (rnd (sqrt (fv a))) (sqrt (ex a)) ((1 + er a) * (1 + 0) * (1 + u64) - 1)
-               (cond a /\ er a <= 1 /\ 0 <= ex a) _).
   intros (Ca & Hle & Hnn). destruct (fok a Ca) as [Ha Ea].
   destruct (rel_to_factor _ _ _ Ha Ea) as (ta & Hta & Eqa).
   destruct (rnd_model (sqrt (fv a))) as (d & Hd & Eqd).
@@ -157,31 +157,40 @@ Proof.
       * eapply Rle_trans; [apply sqrt_factor; exact Hta' | exact Hta].
       * rewrite Rabs_R0; lra.
   - assert (0 <= er a * u64) by (apply Rmult_le_pos; lra). lra.
-Defined.
+Qed.
+Definition fl_sqrt (a : fl) : fl :=
+  mkfl (rnd (sqrt (fv a))) (sqrt (ex a)) ((1 + er a) * (1 + 0) * (1 + u64) - 1) (cond a /\ er a <= 1 /\ 0 <= ex a) (fl_sqrt_ok a).
 
 (* a real constant stored as the nearest float *)
-Definition fl_const (x : R) : fl.
+Lemma fl_const_ok (x : R) :
+  True -> Rabs (rnd x - x) <= (u64) * Rabs (x) /\ 0 <= u64.
 Proof.
-  refine (mkfl (rnd x) x u64 True _).
   intros _. destruct (rnd_model x) as (d & Hd & Eqd). pose proof u64_pos. split; [|lra].
   apply factor_to_rel with d; assumption.
-Defined.
+Qed.
+Definition fl_const (x : R) : fl :=
+  mkfl (rnd x) (x) (u64) (True) (fl_const_ok x).
 (* an operand that IS a float: exact *)
-Definition fl_exact (x : R) : fl.
-Proof.
-  refine (mkfl x x 0 True _). intros _. rewrite Rminus_diag_eq by reflexivity. rewrite Rabs_R0. lra.
-Defined.
+Lemma fl_exact_ok (x : R) :
+  True -> Rabs (x - x) <= (0) * Rabs (x) /\ 0 <= 0.
+Proof. intros _. rewrite Rminus_diag_eq by reflexivity. rewrite Rabs_R0. lra.
+Qed.
+Definition fl_exact (x : R) : fl :=
+  mkfl (x) (x) (0) (True) (fl_exact_ok x).
 (* outside the covered fragment *)
-Definition fl_unknown (x : R) : fl.
-Proof. refine (mkfl x x 0 False _). intros []. Defined.
+Lemma fl_unknown_ok (x : R) : False -> Rabs (x - x) <= 0 * Rabs x /\ 0 <= 0.
+Proof. intros []. Qed.
+Definition fl_unknown (x : R) : fl := mkfl x x 0 False (fl_unknown_ok x).
 
-Definition fl_opp (a : fl) : fl.
+Lemma fl_opp_ok (a : fl) :
+  cond a -> Rabs (- fv a - - ex a) <= (er a) * Rabs (- ex a) /\ 0 <= er a.
 Proof.
-  refine (mkfl (- fv a) (- ex a) (er a) (cond a) _).
   intros C. destruct (fok a C) as [H E]. split; [| exact E].
   replace (- fv a - - ex a) with (- (fv a - ex a)) by ring.
   rewrite !Rabs_Ropp. exact H.
-Defined.
+Qed.
+Definition fl_opp (a : fl) : fl :=
+  mkfl (- fv a) (- ex a) (er a) (cond a) (fl_opp_ok a).
 
 Definition FlOps (h mn : R) : Fops :=
   mkFops fl
@@ -196,3 +205,12 @@ Definition FlOps (h mn : R) : Fops :=
     (fun a b => if Req_EM_T (fv a) (fv b) then true else false)
     (fun _ _ => true)
     (fl_const h) (fl_const mn) (fun a => fl_unknown (fv a)).
+
+Lemma u64_val : u64 = / 9007199254740992.
+Proof.
+  unfold u64. change (-53 + 1)%Z with (-52)%Z. unfold bpow.
+  change (Z.pow_pos radix2 52) with 4503599627370496%Z. field.
+Qed.
+(* the invariant, unpacked *)
+Lemma fl_bound (x : fl) : cond x -> Rabs (fv x - ex x) <= er x * Rabs (ex x).
+Proof. intros C; exact (proj1 (fok x C)). Qed.
